@@ -2,7 +2,8 @@
 //
 // cfg: <nslots> <variant> <k>...   future slots per client thread; instantiation; global indices of the copies that throw
 //   variant 0: X = harness payload {long v}: its copy constructor calls vs::user_call(v) (K_CALL v, throw plan);
-//              moving it is silent and leaves the source with the value MOVED (-7777)
+//              moving it is silent and leaves the source with the value MOVED (-7777); its default constructor is
+//              user-provided and not noexcept (is_nothrow_default_constructible<X> is false)
 //   variant 1: X = long (scalar: default-initialisation is NOT value-initialisation).  Programs of this variant
 //              contain no const X& setter and no fulfillAllPromises (the model would expect their copies).
 // ops: 0 kind key slot     slot = getFuture(key).share()        kind 0: int key, else string key "n%09d"
@@ -34,8 +35,8 @@ constexpr long MOVED = -7777;
 // the payload: copying it is user code (a scheduling point inside the critical section, K_CALL v, and a
 // throw point driven by the case's throw plan); moving it is silent
 struct X {
-    long v = 0;
-    X() = default;
+    long v;
+    X(): v(0) {}  // user-provided and NOT noexcept: a default constructor that may throw, as far as the library can tell
     explicit X(long x): v(x) {}
     X(const X& o): v(o.v) { vs::user_call(o.v); }
     X(X&& o) noexcept: v(o.v) { o.v = MOVED; }
